@@ -311,7 +311,7 @@ Proof.
       rewrite (bsum_memn allnodes blk (fun i => x i * a i k)) by assumption.
       unfold x at 1.
       rewrite (block_alg blk enter (K blk) a Hnb (HK blk Hin) k Hk).
-      fold x. unfold enter at 1. ring.
+      subst x enter. cbv beta. ring.
 Qed.
 
 Lemma inv_fold : forall todo done sol,
@@ -384,6 +384,95 @@ Proof.
   - apply Hcov; exact Hk.
 Qed.
 
+(* ---------- solve_right ---------- *)
+
+Lemma solve_right_block_spec allnodes (A : mat S) (b sol : vec S) blk k : NoDup blk ->
+  vget (solve_right_block S allnodes A b sol blk) k
+  = vget sol k + (if memn k blk
+                  then bsum blk (fun j => (vget b j + bsum allnodes (fun i => vget sol i * mget A j i))
+                                          * mget (block_closure blk A) k j)
+                  else 0).
+Proof.
+  intros Hnb. unfold solve_right_block. cbv zeta. rewrite vget_app. f_equal.
+  rewrite (vget_block blk _ (fun e k' => mget (block_closure blk A) k' (fst e) * snd e) k Hnb).
+  destruct (memn k blk); [|reflexivity].
+  rewrite bsum_map. apply bsum_ext; intros j _. simpl.
+  rewrite (bsum_ext S allnodes (fun i => vget sol i * mget A j i)
+             (fun i => mget A j i * vget sol i)) by (intros; ring).
+  ring.
+Qed.
+
+Theorem solve_right_fixpoint : forall (allnodes : list nat) (blocks : list (list nat)) (A : mat S) (b : vec S),
+  NoDup allnodes ->
+  is_partition allnodes blocks = true ->
+  forward_edges allnodes blocks A = true ->
+  (forall blk, In blk blocks -> forall i k, In i blk -> In k blk ->
+     mget (block_closure blk A) i k
+     = fid i k + bsum blk (fun j => mget A i j * mget (block_closure blk A) j k)) ->
+  (forall i k, ~ In i allnodes \/ ~ In k allnodes -> mget A i k = 0) ->
+  forall k, In k allnodes ->
+    vget (solve_right allnodes blocks A b) k
+    = vget b k + bsum allnodes (fun i => mget A k i * vget (solve_right allnodes blocks A b) i).
+Proof.
+  intros allnodes blocks A b Hnd Hpart Hfw HK _ k Hk.
+  destruct (is_partition_spec allnodes blocks Hpart) as [Hndc [Hcov Hsub]].
+  unfold solve_right.
+  rewrite (bsum_ext S allnodes _
+             (fun i => vget (fold_left (solve_right_block S allnodes A b) (rev blocks) []) i
+                       * mget A k i)) by (intros; ring).
+  apply (gen_fixpoint allnodes b (fun i k' => mget A k' i)
+           (fun blk j k' => mget (block_closure blk A) k' j)
+           (solve_right_block S allnodes A b) (rev blocks) Hnd).
+  - intros sol blk k' Hnb. apply solve_right_block_spec; exact Hnb.
+  - apply (Permutation_NoDup (l := concat blocks)); [|exact Hndc].
+    apply Permutation_sym, concat_rev_perm.
+  - intros x Hx. apply Hsub. apply In_concat_rev; exact Hx.
+  - intros blk Hblk j k' Hj Hk'. apply in_rev in Hblk.
+    rewrite (HK blk Hblk k' j Hk' Hj).
+    unfold fid. rewrite (Nat.eqb_sym k' j). f_equal.
+    apply bsum_ext; intros l _. ring.
+  - intros d blk t E i k' Hi Hk'.
+    apply in_concat in Hk'. destruct Hk' as [b1 [Hb1 Hk']].
+    apply in_split in Hb1. destruct Hb1 as [d1 [d2 Ed]].
+    (* blocks = rev t ++ blk :: rev d2 ++ b1 :: rev d1 : k' lies in a later block than i *)
+    apply (forward_order allnodes blocks A Hndc Hsub Hfw (rev t) blk (rev d2) b1 (rev d1));
+      try assumption.
+    rewrite <- (rev_involutive blocks), E, Ed.
+    rewrite !rev_app_distr. simpl.
+    rewrite <- !app_assoc. simpl. reflexivity.
+  - apply In_concat_rev. apply Hcov; exact Hk.
+Qed.
+
+(* ---------- the checker ---------- *)
+
+Theorem scc_check_sound : forall (nodes : list nat) (bs : list (list nat)) (A : mat S),
+  NoDup nodes -> scc_check nodes bs A = true ->
+  (forall x, In x nodes <-> exists b, In b bs /\ In x b) /\
+  NoDup (concat bs) /\
+  (forall i k p q, In i nodes -> In k nodes -> mget A i k <> 0 ->
+     block_of i bs O = Some p -> block_of k bs O = Some q -> p <= q) /\
+  (forall b i k, In b bs -> In i b -> In k b -> reachN b (adj_bool b A) i k).
+Proof.
+  intros nodes bs A Hnd Hchk. unfold scc_check in Hchk.
+  rewrite !andb_true_iff in Hchk. destruct Hchk as [[Hpart Hfw] Hsc].
+  destruct (is_partition_spec nodes bs Hpart) as [Hndc [Hcov Hsub]].
+  split; [|split; [|split]].
+  - intros x. rewrite <- in_concat. split; [apply Hcov|apply Hsub].
+  - exact Hndc.
+  - intros i k p q Hi Hk Hne Hp Hq.
+    destruct (forward_edges_spec nodes bs A Hfw i k Hi Hk Hne) as [p' [q' [Hp' [Hq' Hle]]]].
+    rewrite Hp in Hp'. rewrite Hq in Hq'. injection Hp' as <-. injection Hq' as <-. exact Hle.
+  - intros blk i k Hblk Hi Hk.
+    rewrite forallb_forall in Hsc. specialize (Hsc blk Hblk).
+    unfold strongly_connected in Hsc.
+    rewrite forallb_forall in Hsc. specialize (Hsc i Hi).
+    rewrite forallb_forall in Hsc. specialize (Hsc k Hk).
+    apply lehmann_bool_sound; try assumption.
+    apply (NoDup_concat_block bs); assumption.
+Qed.
+
 End BlockSolver.
 
 Print Assumptions solve_left_fixpoint.
+Print Assumptions scc_check_sound.
+Print Assumptions solve_right_fixpoint.
